@@ -54,8 +54,10 @@ func genText(t *rapid.T, label string) gen.Cell {
 	}
 }
 
-func TestPropCommit(t *testing.T) {
-	rapid.Check(t, func(t *rapid.T) {
+func TestPropCommit(t *testing.T) { rapid.Check(t, propCommit) }
+
+func propCommit(t *rapid.T) {
+	{
 		c := CommitCase{
 			Table:   rapid.IntRange(0, 255).Draw(t, "table"),
 			Name:    genText(t, "name"),
@@ -74,7 +76,7 @@ func TestPropCommit(t *testing.T) {
 			c.Parents = append(c.Parents, rapid.IntRange(0, 255).Draw(t, "parent"))
 		}
 		subCommit.Check(t, c)
-	})
+	}
 }
 
 func runCommit(c CommitCase) (o evid.Outcome, err error) {
@@ -180,8 +182,10 @@ type BlockCase struct {
 
 var subBlock = evid.Register("block", runBlock)
 
-func TestPropBlock(t *testing.T) {
-	rapid.Check(t, func(t *rapid.T) {
+func TestPropBlock(t *testing.T) { rapid.Check(t, propBlock) }
+
+func propBlock(t *rapid.T) {
+	{
 		tb := gen.GenTable(t, gen.TableOpts{MaxCols: 5, MaxRows: 255, Boundary: true, MaxBig: 3}, "t")
 		c := BlockCase{Table: tb}
 		if rapid.IntRange(0, 3).Draw(t, "bigrows") == 0 {
@@ -190,7 +194,7 @@ func TestPropBlock(t *testing.T) {
 			}
 		}
 		subBlock.Check(t, c)
-	})
+	}
 }
 
 func runBlock(c BlockCase) (o evid.Outcome, err error) {
